@@ -8,7 +8,7 @@
    `wf` is the splitter's post-condition: the two space parts are blank, an empty value
    has no space after it. *)
 From PV Require Import Lib.Bytes Model.Tabs Model.Varalign Model.LayoutFix
-  Proofs.Tabs Proofs.VaralignBlanks Proofs.VaralignFile Proofs.VaralignSingle Proofs.LayoutFix Proofs.C15Final Proofs.C15Blank.
+  Proofs.Tabs Proofs.VaralignBlanks Proofs.VaralignFile Proofs.VaralignSingle Proofs.LayoutFix Proofs.C15Final Proofs.C15Blank Proofs.C15Margin.
 Open Scope Z_scope.
 
 (* ===== width arithmetic ===== *)
@@ -185,6 +185,23 @@ Theorem C15_no_widen_72_partial : forall para para',
   Forall2 (fun p p' => sbv p <> [] -> sav p = [] -> line_width p <= 72 -> line_width p' <= 72) para para'.
 Proof. exact no_widen_72_partial. Qed.
 Print Assumptions C15_no_widen_72_partial.
+
+(* round 4: the same under the guard the code itself evaluates -- the line fits into 72 columns with
+   its present separator, or with a single space if the value is attached to the operator
+   (width_with_room p = tabWidthSlice(leadingComment, varnameOp, oldSpace == "" ? " " : oldSpace, value)).
+   This covers attached values too; what remains outside is exactly the refuting class
+   (attached value and not even one space fits). *)
+Theorem C15_no_widen_72_room : forall para para',
+  Forall single_ok para -> para <> [] -> realign_lines para = Ok para' ->
+  Forall2 (fun p p' => sav p = [] -> width_with_room p <= 72 -> line_width p' <= 72) para para'.
+Proof. exact no_widen_72_room. Qed.
+Print Assumptions C15_no_widen_72_room.
+
+(* it subsumes C15_no_widen_72_partial: a separated line that fits has room *)
+Theorem C15_room_of_separated : forall p, sbv p <> [] -> sav p = [] -> cont p = [] ->
+  line_width p <= 72 -> width_with_room p <= 72.
+Proof. exact room_of_separated. Qed.
+Print Assumptions C15_room_of_separated.
 
 (* and no line gets wider at all if the common column is not to the right of its value column *)
 Theorem C15_no_widen_not_shifted : forall para para',
